@@ -111,7 +111,12 @@ where
         } else {
             let Z = &mut self.data.workmat1;
             svec_to_mat(Z, z);
-            self.data.Eig.eigvals(Z).expect("Eigval error");
+            // the eigenvalue computation fails on non-finite (or overflowing)
+            // data: membership cannot be established, which the caller sees
+            // as an infinitely negative margin rather than a panic
+            if self.data.Eig.eigvals(Z).is_err() {
+                return (T::neg_infinity(), T::zero());
+            }
             let e = &self.data.Eig.λ;
             α = e.minimum();
             β = e.iter().fold(T::zero(), |s, x| s + T::max(*x, T::zero())); //= sum(e[e.>0])
